@@ -127,7 +127,9 @@ func (l *_LexerStateMachine) PushRune(r rune) int {
 		switch mode[i] {
 		case 1: // PushMode
 			modeIndex := int(mode[i+1])
-			l.modeStack.Push(mode)
+			// Save the mode that is current now: an earlier action of this same
+			// rule may already have switched it.
+			l.modeStack.Push(l.mode)
 			l.mode = _lexerModes[modeIndex]
 		case 2: // PopMode
 		  if len(l.modeStack) == 0 {
